@@ -3933,7 +3933,9 @@ def splitValue(value, delim):
     else:
         parts = re.split(delim, value)
         for part in parts:
-            result.addItem(ValueString(part))
+            # a group of the pattern that took no part in a match yields
+            # no text at all
+            result.addItem(ValueString(part if part is not None else ""))
     return result
 
 
